@@ -35,9 +35,9 @@ class KernelProp(Prop):
     def model_request(self, case, impl):
         # the scheduler's choice of which waiter runs first after a failed generation is
         # taken from the observation (the model accepts any waiter)
-        from .gen_kernel import resolve_reraise, undefer
+        from .gen_kernel import realias, resolve_reraise, undefer
 
-        ops = [({**op, "next": r["next"]} if "next" in r else op) for op, r in zip(undefer(resolve_reraise(case["ops"])), impl)]
+        ops = [({**op, "next": r["next"]} if "next" in r else op) for op, r in zip(undefer(realias(resolve_reraise(case["ops"]))), impl)]
         # the model's task id of an async lookup is only a label: use the lookup's own id
         ops = [({**op, "t": op["lid"]} if op["op"] == "get" and "lid" in op else op) for op in ops]
         # a child context entered by a helper task that then ends without leaving it = `new` + `enter` by a
